@@ -8,6 +8,7 @@ for d in refactorings/*/; do
   id=$(basename $d); [ -f $d/patch.diff ] || continue
   b=$BASE; [ -f $d/base ] && b=$(cat $d/base)
   out=$(MAXL=4 engine/try_patch_fast.sh $b /verif/$d/patch.diff 2>&1 | grep -E "^(VIOLATED|UNPROVEN|try_patch: (patch|does))")
-  if [ -n "$out" ]; then echo "FALSE-ALARM on $id:"; echo "$out" | cut -c1-300; rc=1; else echo "silent: $id"; fi
+  if [ -n "$out" ] && [ -f $d/KNOWN_LIMITATION ]; then echo "KNOWN-LIMITATION (documented false alarm, DESIGN 11) on $id:"; echo "$out" | cut -c1-200
+  elif [ -n "$out" ]; then echo "FALSE-ALARM on $id:"; echo "$out" | cut -c1-300; rc=1; else echo "silent: $id"; fi
 done
 exit $rc
